@@ -278,6 +278,10 @@ func (r *c14Runner) runOne(sc c14Scenario, prefix, expect []int, keepIDs bool) (
 	}
 	ex := r.s.Run(bodies, prefix, expect, keepIDs)
 	subject := strings.Join(names, " || ")
+	// the race runtime writes its report synchronously: a grown log belongs to exactly this execution
+	if sum, grown := r.raceGrown(); grown {
+		return ex, fw.F("c14:data-race", sum, "the Go race detector reports a data race between the concurrent calls [%s] under the recorded schedule", subject)
+	}
 	if ex.Diverged != "" {
 		return ex, fw.F("harness-divergence", subject, "schedule replay diverged: %s", ex.Diverged)
 	}
@@ -319,25 +323,24 @@ func C14Exec(path string) int {
 		fmt.Println(err)
 		return 2
 	}
-	r := newC14Runner(false) // cold: nothing of the library has run in this process yet
+	warm := len(cs.Cfg) > 0 && cs.Cfg[0] == "warm"
+	// cold: nothing of the library has run in this process yet (lazy initialisation is cold); warm: every call
+	// has run alone first, so that any later change of a package-level variable is a modification after
+	// initialisation
+	r := newC14Runner(warm)
 	if r == nil {
 		fmt.Println("not an instrumented build")
 		return 2
 	}
-	before := globalsFingerprint()
-	_, f := r.runOne(scenarioFromCase(&cs), cs.Sched, nil, false)
-	if f == nil {
-		// package-level state after the concurrent execution must equal the state after the same calls run
-		// alone in a process of their own: compare with the fingerprint after a second, sequential round
-		afterConc := globalsFingerprint()
-		sc := scenarioFromCase(&cs)
-		names, _ := sc.flat()
-		for i := len(names) - 1; i >= 0; i-- {
-			c14Calls[names[i]](buildEnv([]string{names[i]}))
-		}
-		if afterSeq := globalsFingerprint(); afterSeq != afterConc && before != 0 {
-			f = fw.F("c14:shared-state-modified", strings.Join(names, " || "), "package-level variables keep changing after initialisation (fingerprint differs between the concurrent run and a following sequential run of the same calls)")
-		}
+	sc := scenarioFromCase(&cs)
+	names, _ := sc.flat()
+	var before uint64
+	if warm {
+		before = globalsFingerprint()
+	}
+	_, f := r.runOne(sc, cs.Sched, nil, false)
+	if f == nil && warm && globalsFingerprint() != before {
+		f = fw.F("c14:shared-state-modified", strings.Join(names, " || "), "a package-level variable of the library differs after the concurrent calls although every call had already run alone (modified after initialisation): %s", changedGlobals(r, sc, cs.Sched))
 	}
 	out, _ := json.Marshal(f)
 	fmt.Println("RESULT " + string(out))
@@ -352,13 +355,16 @@ func strsOf(q []fw.QS) []string {
 	return out
 }
 
-func schedEvaluator(cs *fw.Case) *fw.Finding {
+// schedChild runs one schedule in a fresh process. mode is "cold" or "warm".
+func schedChild(cs *fw.Case, mode string) *fw.Finding {
 	dir, err := os.MkdirTemp(os.Getenv("VERIF_SCRATCH"), "sched-exec-")
 	if err != nil {
 		return fw.F("harness", "", "mkdtemp: %v", err)
 	}
 	defer os.RemoveAll(dir)
-	b, _ := json.Marshal(cs)
+	c2 := *cs
+	c2.Cfg = []string{mode}
+	b, _ := json.Marshal(&c2)
 	cf := dir + "/case.json"
 	_ = os.WriteFile(cf, b, 0o644)
 	exe, _ := os.Executable()
@@ -389,6 +395,53 @@ func schedEvaluator(cs *fw.Case) *fw.Finding {
 		}
 	}
 	return fw.F("harness", subject, "sched-exec gave no result: %s", firstN(string(out), 500))
+}
+
+// schedEvaluator is the authoritative, replayable verdict for one (scenario, schedule). The deterministic
+// oracles come first (package-level state modified after initialisation, results differing from the solo
+// results); the race detector - whose shadow memory is lossy, so that a given report can be missed in a given
+// process - is consulted last and retried in fresh processes. A data race report is never a false positive.
+func schedEvaluator(cs *fw.Case) *fw.Finding {
+	if f := schedChild(cs, "warm"); f != nil && f.Class != "c14:data-race" {
+		return f
+	}
+	var race *fw.Finding
+	for i := 0; i < 12; i++ {
+		f := schedChild(cs, "cold")
+		if f == nil {
+			continue
+		}
+		if f.Class != "c14:data-race" {
+			return f
+		}
+		race = f
+		break
+	}
+	if race != nil {
+		race.Subject = "(race detector report; accesses: " + race.Subject + ")"
+	}
+	return race
+}
+
+// changedGlobals names the package-level variables that differ before/after one more execution.
+func changedGlobals(r *c14Runner, sc c14Scenario, sched []int) string {
+	g := hook.Globals()
+	before := map[string]string{}
+	for k, v := range g {
+		before[k] = c14snap.Take(v)
+	}
+	r.runOne(sc, sched, nil, false)
+	var out []string
+	for k, v := range g {
+		if c14snap.Take(v) != before[k] {
+			out = append(out, k)
+		}
+	}
+	sort.Strings(out)
+	if len(out) == 0 {
+		return "(not changed again by a second execution)"
+	}
+	return strings.Join(out, ", ")
 }
 
 func init() {
@@ -467,8 +520,8 @@ func c14Body(c *fw.Ctx) {
 		scName := strings.Join(flatNames(sc), " || ")
 		// determinism self-check: the default schedule twice, identical statement traces
 		e1, f1 := r.runOne(sc, nil, nil, true)
-		e2, _ := r.runOne(sc, nil, nil, true)
-		if f1 == nil && fmt.Sprint(e1.PointIDs) != fmt.Sprint(e2.PointIDs) {
+		e2, f2 := r.runOne(sc, nil, nil, true)
+		if f1 == nil && f2 == nil && fmt.Sprint(e1.PointIDs) != fmt.Sprint(e2.PointIDs) {
 			c.Broken("scenario [%s] is not deterministic under the scheduler (statement traces differ)", scName)
 			continue
 		}
@@ -477,11 +530,13 @@ func c14Body(c *fw.Ctx) {
 		if c.Mine() {
 			c.Count("cold_process_executions", 1)
 			cs := schedCase(sc, nil)
-			if g := schedEvaluator(cs); g != nil {
+			if g := schedChild(cs, "cold"); g != nil {
 				if g.Class == "harness" {
 					c.Broken("%s: %s", g.Subject, g.Detail)
+				} else if a := schedEvaluator(cs); a != nil {
+					c.Report(a, func() *fw.Case { return cs })
 				} else {
-					c.Report(g, func() *fw.Case { return cs })
+					c.Broken("cold-process finding %+v for [%s] did not reproduce", g, scName)
 				}
 				continue
 			}
@@ -523,6 +578,12 @@ func c14Body(c *fw.Ctx) {
 						ch := append([]int{}, choices...)
 						cs := schedCase(sc, ch)
 						g := schedEvaluator(cs)
+						if g == nil {
+							// a race report does not depend on the interleaving (no happens-before edges between the
+							// threads): fall back to the default schedule
+							cs = schedCase(sc, nil)
+							g = schedEvaluator(cs)
+						}
 						if g == nil {
 							c.Broken("in-process finding %+v for [%s] did not reproduce in a fresh process", f, scName)
 						} else {
